@@ -958,6 +958,43 @@ def pad_stack(text):
     return text
 
 
+_SIZE_VAR = re.compile(r'^([ \t]*)(ISTSZ|J_(Z|I|LL)_?(\w*?)_?STACK_SIZE) = .*$', re.M)
+
+
+def instrument_stack_sizes(text, mode):
+    """"Stack high-water mark vs computed size" observation (C38): after every assignment of a driver-side stack size
+    variable (pool allocator: ISTSZ in 8-byte words; FtrPtr/DirectIdx: J_<T>_<kind>_STACK_SIZE in elements; raw stack:
+    the same name in horizontal columns) a PRINT of its value is inserted:  @@STACK <mode> <category> <name> <value>.
+    Nothing else is changed.  The value is compared by TLC (spec/Trace_StackBound.tla) with the storage the ORIGINAL
+    call tree needs on its deepest call path."""
+    text = re.sub(r'[ \t]*&[ \t]*\n[ \t]*&[ \t]*', ' ', text)
+
+    def ins(m):
+        name = m.group(2)
+        if name.upper() == 'ISTSZ':
+            cat = 'all'
+        else:
+            cat = {'Z': m.group(4) or 'jprb', 'I': 'int', 'LL': 'log'}[m.group(3).upper()]
+        return f"{m.group(0)}\n{m.group(1)}print '(A,1X,A,1X,A,1X,A,1X,I0)', '@@STACK', '{mode}', '{cat}', '{name}', {name}"
+    return _SIZE_VAR.sub(ins, text)
+
+
+def split_stack_lines(out, nruns):
+    """Remove the @@STACK lines from a run's stdout; returns (clean stdout, per run list of {name, mode, cat, value})."""
+    keep, recs, cur = [], [[] for _ in range(nruns)], None
+    for line in out.splitlines():
+        t = line.strip()
+        if t.startswith('@@RUN'):
+            cur = int(t.split()[1])
+        if t.startswith('@@STACK'):
+            f_ = t.split()
+            if cur is not None and len(f_) == 5 and cur < nruns:
+                recs[cur].append({'mode': f_[1], 'cat': f_[2], 'name': f_[3], 'value': int(f_[4])})
+            continue
+        keep.append(line)
+    return '\n'.join(keep) + '\n', recs
+
+
 # ============================================================================================ build + judge
 FFLAGS_BASE = ['-O0', '-w', '-fno-range-check', '-ffree-line-length-none', '-fcray-pointer']
 FFLAGS_CHECK = ['-g', '-fcheck=bounds', '-fsanitize=address']
@@ -1018,7 +1055,7 @@ def behaviour_check_multi(ctx, label, cases, variants, transform, *, entry='kern
         prog, inputs = cases[idx]
         text = F.render(prog)
         drv = F.driver_text(prog, entry, inputs)
-        res = {'idx': idx, 'text': text, 'drv': drv, 'new': {}, 'srcs': {}}
+        res = {'idx': idx, 'text': text, 'drv': drv, 'new': {}, 'srcs': {}, 'stack': {}}
         st, out, err = compile_run(ctx.work, f'{label}-{idx}-orig', [('kmod.f90', text), ('drv.f90', drv)])
         res['orig'] = (st, F.parse_output(out, len(inputs)) if st == 'ok' else None, err)
         return res
@@ -1034,6 +1071,9 @@ def behaviour_check_multi(ctx, label, cases, variants, transform, *, entry='kern
             st, out, err = compile_run(ctx.work, f"{label}-{res['idx']}-{v}", list(res['srcs'][v]) + [('drv.f90', res['drv'])],
                                        flags=[f_ for f_ in FFLAGS_CHECK if f_ != '-fcheck=bounds'])
             ctx.cover['exempt_zero_size_stack_address'] = ctx.cover.get('exempt_zero_size_stack_address', 0) + 1
+        out, stk = split_stack_lines(out, len(inputs))
+        if any(stk):
+            res['stack'][v] = stk
         res['new'][v] = (st, F.parse_output(out, len(inputs)) if st == 'ok' else None, err)
 
     with cf.ThreadPoolExecutor(max_workers=workers) as ex:
@@ -1133,6 +1173,41 @@ def behaviour_check_multi(ctx, label, cases, variants, transform, *, entry='kern
                 stats['not_applicable'] += 1
             if nw[0] in ('compile-error', 'runtime-error', 'timeout', 'transform-raised'):
                 fails[v].append((idx, nw[0], nw[2]))
+    # ---- "enough storage": reported stack sizes vs the high-water mark of the original call tree (Trace_StackBound).
+    # Only for call trees whose calls are all unconditional and whose temporaries are all used (prog['stratum'] ==
+    # 'multisize'): there Need(...) of the spec is exactly the high-water mark.
+    scases, smeta, sindex = [], [], {}
+    for r in results:
+        idx = r['idx']
+        prog, inputs = cases[idx]
+        if 'drop' in r or idx not in legal or prog.get('stratum') != 'multisize':
+            continue
+        for v, stk in r['stack'].items():
+            for k in legal[idx]:
+                if not stk[k]:
+                    continue
+                key = (idx, k, json.dumps(stk[k], sort_keys=True))
+                if key not in sindex:
+                    sindex[key] = len(scases)
+                    scases.append({'prog': prog, 'entry': entry, 'input': F.input_json(inputs[k]), 'alloc': stk[k]})
+                smeta.append((idx, k, v, sindex[key]))
+    if scases:
+        sprobe = len(scases)
+        bad_case = copy.deepcopy(scases[0])
+        bad_case['alloc'][0]['value'] = -1
+        scases.append(bad_case)
+        sverd = ctx.validate('Trace_StackBound', 'Trace_ExprEquiv', scases, timeout=1500, per_shard_min=16)
+        if sverd[sprobe][0]:
+            raise MachineryError('Trace_StackBound accepted a negative stack size (binding self-check)')
+        sbad = {}
+        for idx, k, v, i in smeta:
+            stats['storage_judged'] = stats.get('storage_judged', 0) + 1
+            ok, clause, _ = sverd[i]
+            if not ok:
+                sbad.setdefault((idx, v), clause)
+        for (idx, v), clause in sbad.items():
+            fails[v].append((idx, 'storage', f'Error: stack under-allocated ({clause})'))
+        stats['storage_tlc_evaluations'] = len(scases)
     for key, val in stats.items():
         ctx.cover[f'{label}_{key}'] = ctx.cover.get(f'{label}_{key}', 0) + val
     if label != 'shrink':
@@ -1312,6 +1387,9 @@ def transform_c38(variant, text, prog, workdir):
         srcs = [(n, strip_contiguous_explicit_shape(t)) for n, t in srcs]
     if pad:
         srcs = [(n, pad_stack(t)) for n, t in srcs]
+    mode = {'pool': 'words', 'ftrptr': 'elems', 'directidx': 'elems', 'raw': 'cols'}.get(recipe)
+    if mode and prog.get('stratum') == 'multisize':
+        srcs = [(n, instrument_stack_sizes(t, mode)) for n, t in srcs]
     return srcs
 
 
@@ -1421,4 +1499,118 @@ def corpus(which, rng):
                     'features': ['corpus-' + tag]}
             g = GenSCC(rng, (), names)
             out.append((prog, g.inputs(prog, 2)))
+    return out
+
+
+# ============================================================================================ multisize stratum (C38)
+def _driver_calls(nm, sizes, calls):
+    """Driver-role `kernel` over q, t (klon, klev, nb), s (klon, nb): calls = [(unit, {dummy: actual expr})] in the block loop."""
+    klon, klev, nb = sizes
+    K, L, B = V(nm['klon']), V(nm['klev']), V(nm['nb'])
+    dargs = [nm['klon'], nm['klev'], nm['nb'], nm['start'], nm['end']]
+    ddecls = [decl(a, 'int', 'in') for a in dargs]
+
+    def field(name, rank):
+        d = xdecl(name, 'real', 'inout', [(None, K), (None, L), (None, B)] if rank == 3 else [(None, K), (None, B)])
+        d['dims'] = [[1, klon], [1, klev], [1, nb]] if rank == 3 else [[1, klon], [1, nb]]
+        return d
+    ddecls += [field('q', 3), field('t', 3), field('s', 2), decl(nm['ibl'], 'int')]
+    dargs += ['q', 't', 's']
+    ibl = V(nm['ibl'])
+    amap = {'pq': el('q', rng_(), rng_(), ibl), 'pt': el('t', rng_(), rng_(), ibl), 'ps': el('s', rng_(), ibl)}
+    body = []
+    for ku, over in calls:
+        body.append(callst(ku['name'], *[copy.deepcopy(over[a]) if a in over else copy.deepcopy(amap[a]) if a in amap else V(a)
+                                         for a in ku['args']]))
+    return unit('kernel', dargs, ddecls, [do(nm['ibl'], N(1), B, body)])
+
+
+def _order(vals, kind):
+    """vals: distinct (expr, value) pairs sorted by value.  'asc': largest last; 'mid': small, LARGE, medium (three calls);
+    'desc': largest first (control)."""
+    if kind == 'asc':
+        return vals
+    if kind == 'desc':
+        return vals[::-1]
+    return [vals[0], vals[-1]] + vals[1:-1]
+
+
+def multisize_cases(rng):
+    """Call trees in which ONE kernel is called two or three times from the same caller with DIFFERENT size actuals:
+        kernel (driver) -> ka(start, end, klon, klev, kt, pq, pt)   temporaries (klon, kt) [real, + integer]
+                        ka -> kb(start, end, klon, klev, ku, px, py) temporaries (klon, ku) [real, + real(jprd)]
+    ka's temporaries are live across its calls of kb; every call is unconditional and every temporary is used, so the
+    storage needed is own + max over the calls (spec/Trace_StackBound).  Size actuals are expressions over the caller's
+    klev / kt (never over a variable that has the callee dummy's name).  Strata (prog['msize']):
+      drv-asc   driver calls ka 2-3x, largest not first;  ka is a leaf
+      nest-asc  driver calls ka once; ka calls kb 2-3x, largest not first
+      both      driver and ka both call 2-3x, largest not first, kb sized from kt
+      control   largest first on both levels"""
+    out = []
+    for tag in ('drv-asc', 'nest-asc', 'both', 'control'):
+        names = rng.choice(['ifs', 'alt'])
+        nm = NAMES[names]
+        klon, klev, nb = rng.choice([2, 3]), rng.choice([2, 3]), rng.choice([1, 2, 2])
+        K, L = V(nm['klon']), V(nm['klev'])
+        jl, jt = V(nm['jl']), V('jt')
+        st, en = V(nm['start']), V(nm['end'])
+        pool = [(N(1), 1), (N(2), 2), (add(L, N(-1)), klev - 1), (L, klev), (add(L, N(1)), klev + 1), (op('prod', N(2), L), 2 * klev)]
+
+        def pick_sizes(cands, n):
+            byval = {}
+            for e, v in cands:
+                if v >= 1:
+                    byval.setdefault(v, e)
+            vs = sorted(rng.sample(sorted(byval), min(n, len(byval))))
+            return [(byval[v], v) for v in vs]
+        with_int = rng.random() < 0.5
+        with_kind = rng.random() < 0.5
+        # ---- nested kernel kb
+        hl = lambda hi, ss: do('jt', N(1), hi, [do(nm['jl'], st, en, ss)])
+        ntemps = [xdecl('nw', 'real', 'local', [(None, K), (None, V('ku'))])]
+        nbody = [hl(V('ku'), [assign(el('nw', jl, jt), add(el('px', jl, N(1)), op('prod', call('real', jt), R(1, 2))))])]
+        acc = el('nw', jl, jt)
+        if with_kind:
+            ntemps.append(xdecl('nd', 'real', 'local', [(None, K), (None, V('ku'))], 'jprd'))
+            nbody.append(hl(V('ku'), [assign(el('nd', jl, jt), op('prod', el('nw', jl, jt), R(1, 2)))]))
+            acc = add(acc, el('nd', jl, jt))
+        nbody.append(hl(V('ku'), [assign(el('py', jl, N(1)), add(el('py', jl, N(1)), op('prod', op('par', acc), R(1, 2))))]))
+        nargs = [nm['start'], nm['end'], nm['klon'], nm['klev'], 'ku', 'px', 'py']
+        nbu = unit('kb', nargs, [decl(a, 'int', 'in') for a in nargs[:5]] +
+                   [xdecl('px', 'real', 'in', [(None, K), (None, L)]), xdecl('py', 'real', 'inout', [(None, K), (None, L)])] +
+                   ntemps + [decl(nm['jl'], 'int'), decl('jt', 'int')], nbody)
+        # ---- kernel ka
+        nest_kind = {'drv-asc': None, 'nest-asc': rng.choice(['asc', 'mid']), 'both': rng.choice(['asc', 'mid']), 'control': 'desc'}[tag]
+        drv_kind = {'drv-asc': rng.choice(['asc', 'mid']), 'nest-asc': None, 'both': rng.choice(['asc', 'mid']), 'control': 'desc'}[tag]
+        ktemps = [xdecl('za', 'real', 'local', [(None, K), (None, V('kt'))])]
+        fill = [assign(el('za', jl, jt), add(op('prod', el('pq', jl, N(1)), R(1, 2)), call('real', jt)))]
+        use = add(el('pt', jl, L), op('prod', el('za', jl, jt), R(1, 4)))
+        if with_int:
+            ktemps.append(xdecl('zi', 'int', 'local', [(None, K), (None, V('kt'))]))
+            fill.append(assign(el('zi', jl, jt), call('mod', add(jt, N(1)), N(3))))
+            use = add(use, call('real', el('zi', jl, jt)))
+        kbody = [hl(V('kt'), fill)]
+        nest_sizes = []
+        if nest_kind:
+            cands = pool + ([(add(V('kt'), N(1)), None), (V('kt'), None)] if tag == 'both' else [])
+            cands = [c for c in cands if c[1] is not None]
+            nest_sizes = _order(pick_sizes(cands, 3 if nest_kind == 'mid' else 2), nest_kind)
+            for e, _ in nest_sizes:
+                kbody.append(callst('kb', st, en, K, L, copy.deepcopy(e), V('pq'), V('pt')))
+            if tag == 'both':
+                # one more call whose size is derived from ka's own size argument (translated twice on the way up)
+                kbody.insert(2, callst('kb', st, en, K, L, add(V('kt'), N(1)), V('pq'), V('pt')))
+        kbody.append(hl(V('kt'), [assign(el('pt', jl, L), use)]))
+        kargs = [nm['start'], nm['end'], nm['klon'], nm['klev'], 'kt', 'pq', 'pt']
+        kau = unit('ka', kargs, [decl(a, 'int', 'in') for a in kargs[:5]] +
+                   [xdecl('pq', 'real', 'inout', [(None, K), (None, L)]), xdecl('pt', 'real', 'inout', [(None, K), (None, L)])] +
+                   ktemps + [decl(nm['jl'], 'int'), decl('jt', 'int')], kbody)
+        drv_sizes = _order(pick_sizes(pool, 3 if drv_kind == 'mid' else 2), drv_kind) if drv_kind else pick_sizes(pool, 1)
+        driver = _driver_calls(nm, [klon, klev, nb], [(kau, {'kt': e}) for e, _ in drv_sizes])
+        units = [driver, kau] + ([nbu] if nest_kind else [])
+        prog = {'units': units, 'renderer': 'scc', 'names': names, 'sizes': [klon, klev, nb], 'features': ['multisize-' + tag],
+                'stratum': 'multisize',
+                'msize': {'driver': [v for _, v in drv_sizes], 'nested': [v for _, v in nest_sizes], 'int': with_int, 'kind2': with_kind}}
+        g = GenSCC(rng, (), names)
+        out.append((prog, g.inputs(prog, 2)))
     return out
